@@ -2,7 +2,7 @@
   `writeFile` then `readFile`: the content comes back byte for byte.
 -/
 import MotoModel.Proofs.DiskWrite
-import MotoModel.Props.C07
+import MotoModel.Proofs.DiskReadProps
 namespace Moto.Disk
 open Moto
 
